@@ -27,9 +27,6 @@ type Gen struct {
 
 func NewGen(seed int64, profile string) *Gen {
 	g := &Gen{r: rand.New(rand.NewSource(seed)), profile: profile, lastTok: map[string]string{}}
-	// half of the histories start with a scenario template (chosen by the history's own seed:
-	// a separate stream, so that the random part of old seeds is unchanged)
-	sr := rand.New(rand.NewSource(seed ^ 0x5ce9a210))
 	if profile == "many" {
 		g.Scenario = "many"
 		g.script = manyScript()
@@ -49,8 +46,11 @@ func NewGen(seed int64, profile string) *Gen {
 		g.Scenario = forced
 		g.script = genScenarios[forced](g)
 		g.stepNo = 3
-	} else if names := scenariosFor(profile); len(names) > 0 && sr.Float64() < 0.5 {
-		g.Scenario = names[sr.Intn(len(names))]
+	} else if names := scenariosFor(profile); len(names) > 0 && seed%2 == 1 {
+		// every second history starts with a template, taken in rotation (history seeds are
+		// consecutive): with 32 histories every template of the profile is used at least once,
+		// whatever the base seed (a random choice left some templates out of a quick run)
+		g.Scenario = names[int((seed/2)%int64(len(names)))]
 		g.script = genScenarios[g.Scenario](g)
 		g.stepNo = 3
 	}
